@@ -29,6 +29,10 @@ import (
 // operation of the universe has fixed bytes, so two histories leaving the same
 // set of facts leave byte-identical leveldb content under the expel prefix.
 //
+// Height alphabet: the same search (smaller universe) is repeated with all heights
+// shifted to the byte boundaries of the end height inside the record key, and on
+// universes mixing operations of two magnitudes (c23Bases in c23_test.go).
+//
 // Sharding: every shard walks the same BFS over the model (cheap); transition k
 // is executed on the real pool by the shard that owns k. Because every executed
 // transition is compared with the model, "discovered by the model" and
@@ -41,7 +45,7 @@ type c23fEvent struct {
 	label string
 }
 
-func c23fApply(env *c23Env, set uint32, ev c23fEvent) uint32 {
+func c23fApply(env *c23Env, set uint64, ev c23fEvent) uint64 {
 	switch ev.kind {
 	case "S":
 		return set | 1<<ev.ops[0]
@@ -82,10 +86,10 @@ func c23fDo(env *c23Env, db *TempPool, ev c23fEvent) error {
 	panic("unknown event " + ev.kind)
 }
 
-func c23fMembers(set uint32) []int {
+func c23fMembers(set uint64) []int {
 	var xs []int
 
-	for i := 0; i < 32; i++ {
+	for i := 0; i < 64; i++ {
 		if set&(1<<i) != 0 {
 			xs = append(xs, i)
 		}
@@ -94,12 +98,114 @@ func c23fMembers(set uint32) []int {
 	return xs
 }
 
+type c23fConfig struct {
+	root     string // id root; "factbfs" for the unshifted search
+	bases    []int64
+	universe []string
+	foreign  []string
+}
+
+func c23fConfigs(thorough bool) []c23fConfig {
+	cfgs := []c23fConfig{{
+		root:  "factbfs",
+		bases: []int64{0},
+		universe: map[bool][]string{
+			false: {"n1:1-1", "n1:1-2", "n1:2-4", "n1:3-3", "n2:1-2", "n2:2-3", "n2:4-4"},
+			true:  {"n1:1-1", "n1:1-2", "n1:2-2", "n1:2-4", "n1:3-3", "n1:3-4", "n2:1-2", "n2:2-3", "n2:2-2", "n2:4-4"},
+		}[thorough],
+		foreign: []string{"n2:1-1", "n1:1-4"},
+	}}
+
+	bases := []int64{7, 253, 254, 509, 65533, 1<<24 - 3, 1<<31 - 3, 1<<32 - 3}
+	universe := []string{"n1:1-2", "n1:2-4", "n1:3-3", "n2:2-3"}
+
+	if thorough {
+		bases = c23Bases(true)[1:]
+		universe = []string{"n1:1-2", "n1:2-4", "n1:3-3", "n1:4-4", "n2:1-2", "n2:2-3"}
+	}
+
+	for _, b := range bases {
+		cfgs = append(cfgs, c23fConfig{root: fmt.Sprintf("factbfs@b%d", b), bases: []int64{b}, universe: universe, foreign: []string{"n2:1-1", "n1:1-4"}})
+	}
+
+	// operations of two magnitudes in one pool
+	mixes := [][]int64{{0, 254}}
+	mixu := []string{"n1:1-2@0", "n1:2-4@0", "n1:1-2@1", "n2:2-3@1"}
+
+	if thorough {
+		mixes = append(mixes, []int64{254, 1<<32 - 3}, []int64{2, 65533})
+		mixu = append(mixu, "n2:3-3@0", "n1:3-4@1")
+	}
+
+	for _, m := range mixes {
+		cfgs = append(cfgs, c23fConfig{root: fmt.Sprintf("factbfs@mix%d+%d", m[0], m[1]), bases: m, universe: mixu, foreign: []string{"n2:1-1@0", "n1:1-4@1"}})
+	}
+
+	return cfgs
+}
+
 func TestVerifC23Fact(t *testing.T) {
 	r := vlib.Start("C23")
 	defer r.Finish()
 
-	env := c23NewEnv(t)
+	c23fRun(t, r, false)
+}
+
+// c23fRun: bounds=false is the unshifted search, bounds=true the searches of the
+// height alphabet (unit TestVerifC23Bounds).
+func c23fRun(t *testing.T, r *vlib.Run, bounds bool) {
+	_, replaying := r.Replaying()
+
+	var rd struct { // the recorded case names the search it was found in
+		Root     string   `json:"root"`
+		Universe []string `json:"universe"`
+	}
+
+	if replaying {
+		_ = r.ReplayData(&rd)
+	}
+
+	var k, bstates int // k: running transition index over all searches (sharding)
+
+	cfgs := c23fConfigs(r.Thorough() || replaying)
+	if bounds {
+		cfgs = cfgs[1:]
+
+		r.Set("fact_bfs_boundary_searches", len(cfgs))
+	} else {
+		cfgs = cfgs[:1]
+	}
+
+	for _, cfg := range cfgs {
+		if replaying {
+			if !r.WantPrefix(cfg.root + "/") {
+				continue
+			}
+
+			if rd.Root == cfg.root && len(rd.Universe) > 0 {
+				cfg.universe = rd.Universe
+			}
+		}
+
+		states, ok := c23fSearch(t, r, cfg, &k)
+		if !ok {
+			return
+		}
+
+		bstates += states
+	}
+
+	if bounds {
+		r.Set("fact_bfs_boundary_states", bstates)
+		r.Set("fact_bfs_boundary_transitions", k)
+	}
+}
+
+// c23fSearch runs one BFS to its fixpoint; false = internal deadline.
+func c23fSearch(t *testing.T, r *vlib.Run, cfg c23fConfig, kp *int) (int, bool) {
+	env := c23NewEnvAt(t, cfg.bases...)
 	c := &c23Check{r: r, env: env}
+	first := cfg.root == "factbfs"
 
 	byname := map[string]int{}
 	for i := range env.ops {
@@ -107,24 +213,17 @@ func TestVerifC23Fact(t *testing.T) {
 	}
 
 	// the universe of storable operations; `foreign` facts are only ever removed, never stored
-	universe := vlib.Pick(r,
-		[]string{"n1:1-1", "n1:1-2", "n1:2-4", "n1:3-3", "n2:1-2", "n2:2-3", "n2:4-4"},
-		[]string{"n1:1-1", "n1:1-2", "n1:2-2", "n1:2-4", "n1:3-3", "n1:3-4", "n2:1-2", "n2:2-3", "n2:2-2", "n2:4-4"})
-	foreign := []string{"n2:1-1", "n1:1-4"}
-
-	if _, replaying := r.Replaying(); replaying { // the recorded case names the universe it was found in
-		var rd struct {
-			Universe []string `json:"universe"`
-		}
-
-		if err := r.ReplayData(&rd); err == nil && len(rd.Universe) > 0 {
-			universe = rd.Universe
-		}
-	}
+	universe, foreign := cfg.universe, cfg.foreign
 
 	var U []int
+
 	for _, n := range universe {
-		U = append(U, byname[n])
+		i, ok := byname[n]
+		if !ok {
+			panic("unknown operation " + n)
+		}
+
+		U = append(U, i)
 	}
 
 	names := func(xs []int) string { return env.names(xs) }
@@ -136,8 +235,8 @@ func TestVerifC23Fact(t *testing.T) {
 		menu = append(menu, c23fEvent{kind: "S", ops: []int{i}, label: "S(" + env.ops[i].name + ")"})
 	}
 
-	for h := int64(0); h <= 5; h++ {
-		menu = append(menu, c23fEvent{kind: "RH", h: h, label: fmt.Sprintf("RH(%d)", h)})
+	for hi, h := range env.heights { // the label holds the index (= height - base for one base)
+		menu = append(menu, c23fEvent{kind: "RH", h: h, label: fmt.Sprintf("RH(%d)", hi)})
 	}
 
 	rf := func(xs ...int) {
@@ -163,11 +262,13 @@ func TestVerifC23Fact(t *testing.T) {
 	rf(U[1], U[1])                             // the same fact twice
 	rf(U[len(U)-1], U[0], byname[foreign[1]])  // three, unordered
 
-	r.Set("fact_bfs_universe", universe)
-	r.Set("fact_bfs_menu", len(menu))
+	if first {
+		r.Set("fact_bfs_universe", universe)
+		r.Set("fact_bfs_menu", len(menu))
+	}
 
 	type node struct {
-		set  uint32
+		set  uint64
 		hist []int // event indexes
 	}
 
@@ -177,17 +278,19 @@ func TestVerifC23Fact(t *testing.T) {
 			xs[i] = menu[e].label
 		}
 
-		return "factbfs/" + strings.Join(xs, "/")
+		return cfg.root + "/" + strings.Join(xs, "/")
 	}
 
-	seen := map[uint32]bool{0: true}
+	seen := map[uint64]bool{0: true}
 	frontier := []node{{set: 0}}
 
-	if r.Mine(0) {
-		r.State("factbfs:{}")
+	if r.Mine(*kp) {
+		r.State(cfg.root + ":{}")
 	}
 
-	var k, depth int // k: running transition index (sharding)
+	var depth, k0 int
+
+	k0 = *kp
 
 	for len(frontier) > 0 {
 		depth++
@@ -196,7 +299,8 @@ func TestVerifC23Fact(t *testing.T) {
 
 		for _, nd := range frontier {
 			for ei, ev := range menu {
-				k++
+				*kp++
+				k := *kp
 
 				want := c23fApply(env, nd.set, ev)
 				hist := append(append([]int{}, nd.hist...), ei)
@@ -215,7 +319,7 @@ func TestVerifC23Fact(t *testing.T) {
 				if r.Expired() {
 					r.Cap("internal deadline in the remove-by-fact BFS")
 
-					return
+					return 0, false
 				}
 
 				id := histid(hist)
@@ -224,7 +328,7 @@ func TestVerifC23Fact(t *testing.T) {
 				}
 
 				if isnew {
-					r.State("factbfs:{" + names(c23fMembers(want)) + "}")
+					r.State(cfg.root + ":{" + names(c23fMembers(want)) + "}")
 				}
 
 				// replay the history on a fresh real pool, then the event
@@ -259,7 +363,7 @@ func TestVerifC23Fact(t *testing.T) {
 					r.Nontrivial(id)
 				}
 
-				replay := map[string]any{"history": id, "universe": universe}
+				replay := map[string]any{"history": id, "root": cfg.root, "universe": universe, "bases": cfg.bases}
 
 				if r.Want(id) {
 					switch {
@@ -276,7 +380,7 @@ func TestVerifC23Fact(t *testing.T) {
 						kind := map[string]string{"S": "set-wrong", "RH": "remove-by-height-wrong", "RF": "remove-by-fact-wrong"}[ev.kind]
 
 						r.Violation(id, map[string]any{"kind": kind, "what": what, "half": "history"},
-							fmt.Sprintf("stored {%s}, %s left {%s}, expected {%s}", names(before), ev.label, names(got), names(wantl)), replay)
+							fmt.Sprintf("bases %v: stored {%s}, %s (height %d) left {%s}, expected {%s}", cfg.bases, names(before), ev.label, ev.h, names(got), names(wantl)), replay)
 					}
 				}
 
@@ -287,7 +391,7 @@ func TestVerifC23Fact(t *testing.T) {
 					panic(err)
 				}
 
-				if ev.kind == "RF" && len(ev.ops) == 2 && len(before) == 3 && len(nd.hist) == 3 {
+				if first && ev.kind == "RF" && len(ev.ops) == 2 && len(before) == 3 && len(nd.hist) == 3 {
 					r.Sample(map[string]any{"history": id, "left": names(got)})
 				}
 			}
@@ -296,7 +400,11 @@ func TestVerifC23Fact(t *testing.T) {
 		frontier = next
 	}
 
-	r.Set("fact_bfs_states", len(seen))
-	r.Set("fact_bfs_depth", depth)
-	r.Set("fact_bfs_transitions", k)
+	if first {
+		r.Set("fact_bfs_states", len(seen))
+		r.Set("fact_bfs_depth", depth)
+		r.Set("fact_bfs_transitions", *kp-k0)
+	}
+
+	return len(seen), true
 }
